@@ -1587,6 +1587,11 @@ func runScenario(seed int64, n int, out *bufio.Writer, kind string, suffix strin
 	if r0.Intn(10) == 0 {
 		pers["t1"] = true
 	}
+	if (n%16 == 5 || n%16 == 9) && (n/16)%3 == 2 {
+		// the scripted lagging-device and device-fault histories are also run on a persistent target (it keeps its
+		// configuration itself: nothing is re-pushed, but every new term must still be recorded as applied)
+		pers["t1"] = true
+	}
 	hid := fmt.Sprintf("%d.%d%s", seed, n, suffix)
 	sched := seed*7919 + int64(n)
 	if suffix != "" {
